@@ -178,7 +178,7 @@ inline bool plan_effect(Model const& M, ModelTraits const& T, Op const& op, Effe
 			MArr const& b = M.at(D, op.b);
 			set_dims(a, D, b.n);
 			a.v     = b.v;
-			a.arena = op.kind == O_CTOR_COPY ? ((T.soccc_default && D != 0) ? 0 : b.arena) : op.ar;
+			a.arena = op.kind == O_CTOR_COPY ? (T.soccc_default ? 0 : b.arena) : op.ar;
 			a.exact_empty = b.exact_empty;  // "extents ... equal the source's", also for an empty source
 			e.elems = b.count();
 			if(a.arena != b.arena) var("other-arena");
